@@ -12,13 +12,18 @@ open Adsb
 
 -- flatten the statement tree of `cpr_nl` into a chain `(threshold, NL)`: a nested `if lat < t { … }` bounds every
 -- threshold inside it by `t` (exactly: `lat < min t' t ↔ lat < t' ∧ lat < t`)
+/-- a nested `if lat < thr` inside a block already bounded by `bound` -/
+def tighten (thr : Nat) : Option Nat → Nat
+  | some b => min thr b
+  | none => thr
+
 mutual
 def flattenStmts : List Gen.NlStmt → Option Nat → List (Option Nat × Nat)
   | [], _ => []
   | s :: rest, bound => flattenStmt s bound ++ flattenStmts rest bound
 def flattenStmt : Gen.NlStmt → Option Nat → List (Option Nat × Nat)
   | .ret n, bound => [(bound, n)]
-  | .ite thr body, bound => flattenStmts body (some (match bound with | some b => min thr b | none => thr))
+  | .ite thr body, bound => flattenStmts body (some (tighten thr bound))
 end
 
 /-- the chain up to (and including) the first unconditional return -/
